@@ -93,6 +93,9 @@ class _Local(FnSpec):
         self.classes["json"] = {"dumps": Model(self.m_dumps, "json.dumps"), "load": Model(self.m_load, "json.load")}
         self.classes["jsonstr"] = {"encode": Model(lambda eng, a, k, n: Sym(METAB(a[0].fields["ref"].term), BYTES), "encode")}
         self.classes["os.path"]["split"] = Model(self.m_split, "os.path.split")
+        # a sibling method called on self is checked against its contract (modular), not its body; the real code has no
+        # such call today -- a change that introduces one (has_blob as a guard in another operation) stays in the subset
+        self.classes["LocalFileStore"] = {"has_blob": Model(lambda eng, a, k, n: Local_has_blob().call_site(eng, a, k, n), "contract:LocalFileStore.has_blob")}
 
     # ---- models ------------------------------------------------------------------------------------
     def m_get_codec(self, eng, args, kwargs, node):
@@ -267,6 +270,13 @@ class _Local(FnSpec):
 
 class Local_has_blob(_Local):
     qualname = "LocalFileStore.has_blob"
+    result_ty = TBool
+
+    def param_names(self):
+        return ["self", "key"]
+
+    def modifies(self, ctx):
+        return []  # read only: the callee's `read_only` clause then says the file system is the caller's, unchanged
 
     def make_args(self, eng):
         return {"self": self.self_obj(), "key": KEY.const("key")}
